@@ -48,8 +48,14 @@ func c06(e *Env) {
 func (k *scoreKit) scoreFuncs() []*types.Func {
 	var out []*types.Func
 	for _, l := range k.levels {
-		for _, n := range []string{"Score", "score"} {
-			if m := l.Method(n); m != nil {
+		if m := l.Method("Score"); m != nil {
+			out = append(out, m)
+		}
+		// unexported score helpers: methods of the level returning one float64
+		for j := 0; j < l.Named.NumMethods(); j++ {
+			m := l.Named.Method(j)
+			sig := m.Type().(*types.Signature)
+			if !m.Exported() && sig.Results().Len() == 1 && isFloat64(sig.Results().At(0).Type()) {
 				out = append(out, m)
 			}
 		}
@@ -257,7 +263,7 @@ func isZeroish(t *ir.Term) bool {
 
 func (e *Env) ownSeverity(k *scoreKit) {
 	c := e.C
-	sevFn, _ := k.pkg.Scope().Lookup("severity").(*types.Func)
+	var sevFn *types.Func // identified by role: what every Severity() passes its own Score() to
 	for _, l := range k.levels {
 		m := l.Method("Severity")
 		if m == nil {
